@@ -162,6 +162,23 @@ fn run(case: &Case, cx: &mut Cx) -> CaseResult {
         }
         evals += 1;
     }
+    // ... and when the listings are made one after another through ONE opened StoredTree value
+    {
+        let subs: Vec<String> = subtrees.iter().cloned().collect();
+        let l = ops::list_many_through_one_tree(&arch, &Sel::Band(0), &subs, 10_000);
+        ensure!(l.clean(), "C12/subtree-list-error/one-stored-tree", "{}", l.describe());
+        let all = l.result.unwrap();
+        for (s, got) in subs.iter().zip(all.iter().skip(1)) {
+            let want: Vec<String> = all[0].iter().filter(|p| under(s, p)).cloned().collect();
+            if *got != want {
+                return Err(Failure::new(
+                    "C12/subtree-listing/one-stored-tree",
+                    format!("subtree {s:?} listed through a StoredTree value that had been listed before: got {got:?}, the full listing filtered gives {want:?}"),
+                ));
+            }
+            evals += 1;
+        }
+    }
     // The same relation on a stitched (interrupted) version.
     let mut stitched = false;
     if let Some((edits, k)) = &case.interrupted {
